@@ -221,6 +221,19 @@ func c10mlBatch(ctx *Ctx, res *Result, cases []c10mlCase, limit time.Duration, c
 			}
 			raw0 := strings.TrimSuffix(raws[pos], "\n")
 			pos += l.nraw
+			// the shape the no-panic theorem assumes of a line: the first physical line without its continuation
+			// backslash and trailing blanks starts the logical text (one raw line: it is the text)
+			firstLine := strings.TrimRight(strings.TrimSuffix(raw0, "\\"), " \t")
+			if (l.nraw > 1 && !strings.HasPrefix(l.text, firstLine)) || (l.nraw == 1 && l.text != raw0) {
+				res.AddViolation(Violation{Key: "C10/correspondence/varassign-ml-line-shape",
+					What:       fmt.Sprintf("logical line %d of %q: text %q does not start with the first physical line %q", k+1, c.in, l.text, firstLine),
+					FoundInput: false, Size: 1 + len(c.in),
+					Replay: map[string]any{"kind": "ml", "input": hx(c.in), "line": k + 1,
+						"broken": "hypothesis ml_shape of C10mk_varassign_ml_no_panic_partial holds for every line convertToLogicalLines builds"}})
+				cnt["ml_violations"]++
+			} else if l.nraw > 1 {
+				cnt["ml_line_shape_checked"]++
+			}
 			if what, desc := c10mlSpec(raw0, l.text, l.nraw, l.va, mo.va); what != "" {
 				res.AddViolation(Violation{Key: "C10/varassign-ml/" + what,
 					What:       fmt.Sprintf("matchVarassign on logical line %d of %q (text %q, %d raw lines): %s", k+1, c.in, l.text, l.nraw, desc),
